@@ -368,6 +368,8 @@ async def sum(iterable: AnyIterable[Any], start: Any = 0) -> Any:
     """
     Sum of ``start`` and all elements in the (async) iterable
     """
+    if isinstance(start, (str, bytes, bytearray)):
+        raise TypeError(f"sum() can't sum {type(start).__name__} [use join instead]")
     total = start
     async for item in aiter(iterable):
         total = total + item
